@@ -277,6 +277,9 @@ func Main(t *testing.T) {
 		}
 		out := RunOne(t, c, rf.Conf, rf.Seed, rf.Run, rf.Tape, tmp, true)
 		os.RemoveAll(out.Dir)
+		if tf := os.Getenv("VERIF_REPLAY_TRACE"); tf != "" {
+			os.WriteFile(tf, []byte(strings.Join(out.Res.Trace, "\n")+"\n--ops--\n"+strings.Join(out.Ops, "\n")+"\n--log--\n"+strings.Join(out.Res.Log, "\n")+"\n"), 0644)
+		}
 		// a fresh process reports every race of the run, the finding process only those it had
 		// not reported in earlier runs: look for the file's signature among all of them
 		for i := range out.Races {
